@@ -1,1 +1,87 @@
-fn main(){}
+//! `hvm`: socket-free scenarios interpreted by Miri (seeded scheduler; deadlock, data race and UB
+//! detection). Prints one line per scenario to stdout; the driver aggregates.
+
+#[path = "../../shared/pool_scenario.rs"]
+mod pool_scenario;
+
+use pool_scenario::*;
+use std::sync::atomic::AtomicBool;
+use std::sync::Arc;
+
+struct MiriEnv;
+
+impl Env for MiriEnv {
+    fn pause(&self, _micros: u64) {
+        std::thread::yield_now();
+    }
+    fn keep_waiting(&self, rounds: u64) -> bool {
+        rounds < 200_000
+    }
+}
+static ENV: MiriEnv = MiriEnv;
+
+fn fp_handler(_name: &'static str) {
+    // a scheduling point: lets Miri's scheduler preempt here
+    std::thread::yield_now();
+}
+
+fn arg(name: &str) -> Option<String> {
+    let a: Vec<String> = std::env::args().collect();
+    a.iter().position(|x| x == name).and_then(|i| a.get(i + 1)).cloned()
+}
+
+fn c08() {
+    let n: usize = arg("--n").and_then(|s| s.parse().ok()).unwrap_or(2);
+    let tasks: Vec<TaskKind> = arg("--tasks").unwrap_or_default().chars().map(kind_from).collect();
+    let script = script_from(arg("--script").and_then(|s| s.parse().ok()).unwrap_or(0));
+    let sc = Scenario { n, tasks, script };
+    silence_task_panics();
+    humphrey::verif::set_failpoint_handler(fp_handler);
+    let log = Log::new();
+    let returned = Arc::new(AtomicBool::new(false));
+    let o = run(&sc, &ENV, log, returned);
+    let mut v = check(&sc, &o);
+    if let Some(g) = &o.gave_up {
+        v.push(("C08/gave-up-waiting".into(), g.clone()));
+    }
+    println!("HVM c08 n={} tasks={} script={} fp={:016x} events={} maxrun={} viol={} trace={}", sc.n, arg("--tasks").unwrap_or_default(), script_index(script), fingerprint(&o), o.events.len(), o.max_running, v.iter().map(|(s, w)| format!("{}~{}", s, w.replace(' ', "_"))).collect::<Vec<_>>().join("|"), trace_string(&o).replace(' ', ","));
+}
+
+fn pure() {
+    // panic/UB-only sweep of pure functions under the interpreter (no oracle beyond "no UB, no panic")
+    use humphrey::krauss::wildcard_match;
+    use humphrey_ws::verif::{Base64Decode, Base64Encode, SHA1Hash};
+    let mut x: u64 = arg("--seed").and_then(|s| s.parse().ok()).unwrap_or(1);
+    let mut next = || {
+        x ^= x << 13;
+        x ^= x >> 7;
+        x ^= x << 17;
+        x
+    };
+    let n: usize = arg("--count").and_then(|s| s.parse().ok()).unwrap_or(300);
+    let alpha = ['*', 'a', 'b', 'é', '😀'];
+    let mut done = 0;
+    for _ in 0..n {
+        let p: String = (0..next() % 8).map(|_| alpha[(next() % 5) as usize]).collect();
+        let t: String = (0..next() % 10).map(|_| alpha[1 + (next() % 4) as usize]).collect();
+        std::hint::black_box(wildcard_match(&p, &t));
+        let data: Vec<u8> = (0..next() % 70).map(|_| next() as u8).collect();
+        let e = data.encode();
+        assert_eq!(e.decode().ok().as_deref(), Some(&data[..]));
+        std::hint::black_box(data.hash());
+        let parts = humphrey_ws::verif::FrameParts { fin: true, rsv: [false; 3], opcode: 2, mask: next() % 2 == 0, length: data.len() as u64, masking_key: [1, 2, 3, 4], payload: data.clone() };
+        let w = humphrey_ws::verif::encode(parts).unwrap();
+        let back = humphrey_ws::verif::decode(&w[..]).unwrap();
+        assert_eq!(back.payload, data);
+        done += 1;
+    }
+    println!("HVM pure calls={}", done * 5);
+}
+
+fn main() {
+    match std::env::args().nth(1).as_deref() {
+        Some("c08") => c08(),
+        Some("pure") => pure(),
+        _ => eprintln!("usage: hvm c08|pure ..."),
+    }
+}
